@@ -21,6 +21,19 @@ pub struct StatelessCase {
 
 pub fn gen(rng: &mut Rng) -> StatelessCase {
     let codec = *rng.pick(&VCODECS);
+    if rng.chance(1, 300) {
+        // pathologically long, repetitive input: recursion depth, quadratic scans and allocation size show here
+        let unit: &[u8] = *rng.pick(&[&[0u8, 0, 1][..], &[0, 0, 0, 1], &[0], &[0xff], &[0x80], &[0x0a, 0x80], &[0x12, 0x00], &[0, 0, 1, 0x65], &[0xff, 0xf1]]);
+        let reps = *rng.pick(&[20_000usize, 100_000, 200_000]);
+        let mut d = Vec::with_capacity(unit.len() * reps + 8);
+        if rng.bool() {
+            d.extend_from_slice(&[0x49, 0x83, 0x42, 0x00]);
+        }
+        for _ in 0..reps {
+            d.extend_from_slice(unit);
+        }
+        return StatelessCase { bytes: Hex(d), n: rng.next_u64() >> rng.below(64), m: rng.below(1 << 20), x: F(30.0), text: "h264".into() };
+    }
     let base: Vec<u8> = match rng.below(10) {
         0 => Vec::new(),
         1 => {
@@ -103,7 +116,31 @@ macro_rules! call {
     };
 }
 
+/// Long inputs run on a thread with the default 2 MiB stack of spawned threads (a caller's worker thread),
+/// so that input-proportional recursion ends the process here and not only in somebody's production.
 pub fn eval(c: &StatelessCase, st: &mut RunStats) -> Vec<Violation> {
+    if c.bytes.0.len() > 50_000 {
+        let c2 = c.clone();
+        let h = std::thread::Builder::new().stack_size(2 << 20).spawn(move || {
+            let mut st2 = RunStats::default();
+            let v = eval_inner(&c2, &mut st2);
+            (v, st2.trace_hash, st2.nontrivial)
+        });
+        match h.map(|h| h.join()) {
+            Ok(Ok((v, th, nt))) => {
+                st.trace_hash = th;
+                st.nontrivial = nt;
+                st.evaluations = 60;
+                st.count("long_repetitive_inputs_on_2MiB_stack", 1);
+                return v;
+            }
+            _ => panic!("harness: could not run the long-input evaluation thread"),
+        }
+    }
+    eval_inner(c, st)
+}
+
+fn eval_inner(c: &StatelessCase, st: &mut RunStats) -> Vec<Violation> {
     use muxide::api::{AacProfile, AudioCodec, Metadata, MuxerConfig, VideoCodec};
     use muxide::codec::{av1, common, h264, h265, opus, vp9};
     use muxide::validation as val;
